@@ -35,7 +35,7 @@ EXTRA_SHIMS = ['sys.modules["cvxpy"] = vf.cvxstub: recorder; solve() returns a n
 ASSUMPTIONS = ['solver contract: status "optimal" => x.value is a maximiser of the recorded problem, prob.value its objective value, '
                'dual_value of a constraint its multipliers; other statuses carry no information (validated on instances against the real cvxpy)',
                'finite bounds (every assembled EAO problem has them)']
-OUTSIDE = ['the native solvers themselves', 'the ortools interface (not installed)', 'unbounded hand-made problems']
+OUTSIDE = ['the native solvers themselves', 'rows without any non-zero coefficient (cvxpy+SCIP accepts an infeasible all-zero row in a MIP: observed, outside the contract)', 'the ortools interface (not installed)', 'unbounded hand-made problems']
 STATUSES = ['optimal', 'optimal_inaccurate', 'infeasible', 'unbounded', 'infeasible_inaccurate']
 
 MAPPINGS = {
@@ -305,6 +305,24 @@ def run_assembled(rec, seed, shape, kw):
 
 def run_split(rec, seed, shape, kw, split):
     eao = lift.import_eao()
+    # an interval the solver does not solve: the split problem must report the failure (not crash, not return a result)
+    for status in ('infeasible', 'optimal_inaccurate'):
+        def build_f(D, status=status):
+            with_stub(status)
+            sc = scen.run(D, shape, kw, split, with_output=False)
+            return sc.op.optimize()
+        for pi, (path, D) in enumerate(lift.explore_build(build_f, level='A')[:2]):
+            nm = 'failure_%s/p%d' % (status, pi)
+            if path.exc is not None:
+                if common.is_rejection(path.exc):
+                    continue
+                common.crash_candidate(rec, nm + '/crash', path, D, info=dict(ob='crash', kind='split', status=status))
+                continue
+            ok = isinstance(path.result, str)
+            rec.obligations.append(dict(name=nm + '/status_string', verdict='unsat' if ok else 'sat', secs=0, form='Q2'))
+            rec.distinct.add(nm)
+            if not ok:
+                rec.candidates.append(dict(name=nm + '/status_string', env={}, info=dict(ob='split_status', status=status), form='struct'))
 
     def build(D):
         stub = with_stub('optimal')
@@ -462,6 +480,11 @@ def random_instance(rnd):
     l = [q(-3, 0) for _ in range(n)]
     u = [l[i] + q(0, 4) for i in range(n)]
     A = [[q(-2, 2) if rnd.random() < 0.7 else Fraction(0) for _ in range(n)] for _ in range(m)]
+    for r in range(m):
+        # every row has a non-zero coefficient: cvxpy+SCIP reports success for MIPs containing an all-zero row `0 == 1`
+        # (observed by this validation; such rows are outside the solver contract assumed here, EAO's set-up code skips empty rows)
+        if all(v == 0 for v in A[r]):
+            A[r][rnd.randrange(n)] = Fraction(1)
     ct = ''.join(rnd.choice('ULSN') for _ in range(m))
     x0 = [l[i] + (u[i] - l[i]) * Fraction(rnd.randint(0, 4), 4) for i in range(n)]
     feasible = rnd.random() < 0.75
@@ -559,18 +582,27 @@ def stub_replay(kwargs, env, info):
     D = lift.Domain(theta=env)
     status = info.get('status', 'optimal')
     if kind == 'split':
-        # with the REAL cvxpy: the code around the solver calls (merging of the interval results)
+        # (1) real numpy/scipy and floats with only the solver stubbed: the code around the solver calls (merging of interval results)
         from .. import cvxstub
+        with_stub(status)
+        sc = scen.run(D, kw['shape'], kw['kw'], kw['split'], with_output=False, env=env)
+        res = sc.op.optimize()           # an exception here is the reproduction of a crash candidate
+        out = dict(stub_result='str' if isinstance(res, str) else 'Results')
+        # (2) with the REAL cvxpy for the numbers (optional: the witness point may be infeasible)
         if sys.modules.get('cvxpy') is cvxstub:
             del sys.modules['cvxpy']
-        sc = scen.run(D, kw['shape'], kw['kw'], kw['split'], with_output=False, env=env)
-        res = sc.op.optimize()
-        vals = []
-        for o_ in sc.ops:
-            r = o_.optimize()
-            vals.append(None if isinstance(r, str) else float(r.value))
-        return dict(split_value=None if isinstance(res, str) else float(res.value), interval_values=vals,
-                    n_x=None if isinstance(res, str) else len(res.x), n_c=len(sc.op.c))
+        try:
+            sc = scen.run(D, kw['shape'], kw['kw'], kw['split'], with_output=False, env=env)
+            res = sc.op.optimize()
+            vals = []
+            for o_ in sc.ops:
+                r = o_.optimize()
+                vals.append(None if isinstance(r, str) else float(r.value))
+            out.update(split_value=None if isinstance(res, str) else float(res.value), interval_values=vals,
+                       n_x=None if isinstance(res, str) else len(res.x), n_c=len(sc.op.c))
+        except Exception as e:  # noqa: BLE001
+            out['real_solver_error'] = '%s: %s' % (type(e).__name__, e)
+        return out
     stub = with_stub(status)
     if kind in ('stub', 'soft'):
         op = synthetic_concrete(D, kw['m'], kw['n'], kw['mapping'], info.get('ctype', kw['ctypes'][0]))
@@ -639,6 +671,8 @@ def judge(case, kwargs, cand, ans):
     ob = info.get('ob')
     if ob == 'crash':
         return False, 'no exception with real numpy/scipy'
+    if ob == 'split_status':
+        return True, 'split optimisation returns a result although the solver reported %s for an interval' % info.get('status')
     if ob in ('split_value', 'split_x', 'split_duals'):
         iv = o.get('interval_values') or []
         bad = o.get('n_x') != o.get('n_c') or (None not in iv and o.get('split_value') is not None and abs(sum(iv) - o['split_value']) > 1e-6 * max(1, abs(o['split_value'])))
